@@ -323,4 +323,50 @@ theorem params_union (rnd : Rat → Rat) (fixed : Bool) (t : Tbl) (txs : List Tx
 example : (3 : Int) ∈ (paramsOf .E [.t1 3 [(.str "a", .int 1)], .t2 3 [], .t1 3 [(.str "b", .tup [])]]).map (·.1) := by
   simp [paramsOf]
 
+
+/-! ### phase 4: translator tie.  `Generated/C07Consts.lean` is rewritten on every run from the CURRENT coba source (Python `ast`);
+these obligations fail to compile as soon as the source's constants / key lists / dispatch tags differ from the model's. -/
+section Phase4
+open Coba.Generated
+
+/-- [phase 4] what the source says equals what the model uses: log version written = accepted by decoder = accepted by reader = 4,
+the T0..T4 -> record-tag dispatch of the encoder and the tags the reader tests, the `_packed` / `_n` keys (same literal on both
+sides), `str(key)` field names, absent -> None, the exempt column list of `packed_list2tuple`, the `Table(columns=…)` literals,
+the id columns assigned after unpacking (in source order), index from 1, `minimize`'s default precision 5 -/
+theorem source_consts_match :
+    C07.encVersion = 4 ∧ C07.decVersion = C07.encVersion ∧ C07.resVersion = C07.encVersion ∧
+    C07.encTags = [("T0", "experiment"), ("T1", "E"), ("T2", "L"), ("T3", "V"), ("T4", "I")] ∧
+    C07.resTags = C07.encTags.map Prod.snd ∧
+    C07.packedKey = "_packed" ∧ C07.countKey = "_n" ∧ C07.encKeyIsStr = true ∧ C07.encAbsentIsNone = true ∧
+    C07.exemptCols = ["rewards"] ∧ C07.intCols = idCols ∧ C07.idAssigned = idCols ∧
+    C07.paramCols = [Tbl.E, Tbl.L, Tbl.V].map idColName ∧ C07.indexFrom = 1 ∧ 10 ^ C07.precision = 100000 := source_consts_match'
+
+/-- [phase 4] the model's encoder writes the source's version line -/
+theorem encode_uses_source_version (rnd : Rat → Rat) (fixed : Bool) (txs : List Tx) :
+    encode rnd fixed false txs = Rec.version C07.encVersion :: txs.map (encodeTx rnd fixed) := encode_uses_source_version' rnd fixed txs
+
+/-- [phase 4] the model's reader rejects every version but the source's -/
+theorem readLog_version_gate (fixed : Bool) (n : Int) (recs : List Rec) (h : n ≠ C07.resVersion) :
+    readLog fixed (Rec.version n :: recs) = .error .stopIteration := readLog_version_gate' fixed n recs h
+
+example : (3 : Int) ≠ C07.resVersion := by decide
+
+/-- [phase 4] `round5` is `round(v*P)/P` for the source's `P = 10**precision` -/
+theorem round5_uses_source_precision (q : Rat) :
+    round5 q = (rhe (fl (q * ((10 ^ C07.precision : Nat) : Rat))) : Rat) / ((10 ^ C07.precision : Nat) : Rat) :=
+  round5_uses_source_precision' q
+
+/-- [phase 4] the specification's and the reader's exemption from the tuple conversion is the source's list -/
+theorem exempt_uses_source_list (rnd : Rat → Rat) (col : String) (v : Val) (cols : List (String × List Val)) :
+    normCell rnd col v = (if col ∈ C07.exemptCols then normIn rnd v else normTop rnd v)
+    ∧ tupleColsPerCell cols = cols.map (fun c => (c.1, if c.1 ∈ C07.exemptCols then c.2 else c.2.map tupTop)) :=
+  ⟨normCell_uses_source_exempt' rnd col v, tupleCols_uses_source_exempt' cols⟩
+
+/-- [phase 4] the id cells prepended to every row are the source's `packed[name] = …` assignments, in source order, index from the source's start -/
+theorem idCells_uses_source_cols (e l v : Int) (i : Nat) :
+    (idCells e l v i).map Prod.fst = C07.idAssigned ∧ (idCells e l v (Int.toNat C07.indexFrom)).getLast? = some ("index", .int 1) :=
+  idCells_uses_source_cols' e l v i
+
+end Phase4
+
 end Coba.C07
